@@ -9,6 +9,10 @@
                             regenerated from the source (Gen/ApiShape.v); inner = innermost body
      Panic                  a panic escapes the entry point;  Hang = the call does not return
      cache_get              lookup in the type cache of a builder / iterator session
+     run_typed pol e env fuel calls   outcomes of successive Marshal calls on one object with values over a
+                            graph of types env (cycles, unsupported kinds): iterators capture the
+                            placeholders of types still being generated; pol = what the failure path of
+                            GetIteratorForType does with its placeholder; None = the model's fuel ran out
      artificially_terminate builder/context.go ArtificiallyTerminate on a builder stack
      frag_decode            cbe/decoder.go Decode + runMainDecodeLoop on a fragment of CBE
    The model does not cover: process death by memory exhaustion (the CBE reader allocates twice
@@ -110,6 +114,53 @@ Theorem C07_old_cache_poisoned :
     snd (cache_get_old (fst (cache_get_old c t false)) t false) = Waits.
 Proof. exact old_cache_poisoned. Qed.
 Print Assumptions C07_old_cache_poisoned.
+
+(* ---- iterator session over a graph of types ---- *)
+
+(* Marshal calls on ONE object, values over ANY graph of types (self-referential types, unsupported
+   kinds anywhere in the graph, interfaces holding unsupported values), in any order, any reuse after
+   failed calls, every marshal entry point: every call the model evaluates returns a result or an
+   error.  The generation of a type that fails leaves iterators of OTHER types cached with the
+   failed type's placeholder inside; the failure path releases that placeholder (commit d2cf257),
+   so calling it re-raises the error instead of waiting. *)
+Theorem C07_typed_marshal_sessions_return :
+  forall (e : entry_point) (env : tyenv) (fuel : nat) (calls : list (nat * vshape)),
+    Forall (fun o => match o with Some o' => o' <> Panic /\ o' <> Hang | None => True end)
+           (run_typed policy_current e env fuel calls).
+Proof. exact run_typed_good. Qed.
+Print Assumptions C07_typed_marshal_sessions_return.
+
+(* The same for every failure path that releases the placeholder, whether or not it deletes it. *)
+Theorem C07_typed_sessions_return_when_released :
+  forall (pol : fail_policy) (e : entry_point) (env : tyenv) (fuel : nat) (calls : list (nat * vshape)),
+    fp_release pol = true ->
+    Forall (fun o => match o with Some o' => o' <> Panic /\ o' <> Hang | None => True end)
+           (run_typed pol e env fuel calls).
+Proof. exact run_typed_good_released. Qed.
+Print Assumptions C07_typed_sessions_return_when_released.
+
+(* Releasing is necessary.  type T struct { Next *T; Ch chan int } (rec_env), Marshal(T{}) then
+   Marshal(&T{}) on one Marshaler (rec_calls): with a failure path that only deletes the
+   placeholder the second call never returns, while one-shot calls and repetitions of the same
+   call still return errors. *)
+Theorem C07_unreleased_placeholder_waits :
+  run_typed policy_delete_only CBEMarshaler_Marshal rec_env 8 rec_calls = [Some Err; Some Hang]
+  /\ run_typed policy_delete_only CTEMarshaler_MarshalToDocument rec_env 8 rec_calls = [Some Err; Some Hang]
+  /\ run_typed policy_delete_only MarshalToCBEDocument rec_env 8 rec_calls = [Some Err; Some Err]
+  /\ run_typed policy_delete_only CBEMarshaler_Marshal rec_env 8 [(0, VNode []); (0, VNode [])]%nat = [Some Err; Some Err]
+  /\ run_typed policy_delete_only CBEMarshaler_Marshal rec_env 8 [(1, VNode [(0, VNode [])]); (1, VNode [(0, VNode [])])]%nat = [Some Err; Some Err].
+Proof. exact unreleased_placeholder_waits. Qed.
+Print Assumptions C07_unreleased_placeholder_waits.
+
+Theorem C07_typed_old_protocol_waits :
+  run_typed policy_before_d2cf257 CBEMarshaler_Marshal rec_env 8 [(0, VNode []); (0, VNode [])]%nat = [Some Err; Some Hang].
+Proof. exact typed_old_protocol_waits. Qed.
+Print Assumptions C07_typed_old_protocol_waits.
+
+(* Non-vacuity: on the same sequence the current protocol is evaluated to the end (no None). *)
+Example C07_typed_witness_current :
+  run_typed policy_current CBEMarshaler_Marshal rec_env 8 rec_calls = [Some Err; Some Err].
+Proof. exact typed_witness_current. Qed.
 
 (* ---- the property ---- *)
 
